@@ -165,6 +165,23 @@ def run_batch(res: Result, fam, members, argnames, arglists, sig, case, extra_gl
     """compile a batch, run it on every argument list, compare member by member; on a compile failure fall back to one function per member"""
     res.states += 1
     t0 = time.time()
+    # members that the *interpreter* rejects on these operands are outside the comparison (e.g. a 4D axis for
+    # rotate_axis, t = 0 for to_beta3): drop them individually instead of losing the whole batch
+    kept = []
+    for m in members:
+        res.add_to("members_enumerated", f"{fam}|{m}|{sig.split('|')[0]}")
+        src1 = "def probe1(" + ", ".join(argnames) + "):\n    return " + m + "\n"
+        ns1 = {"vector": vector, "numpy": np}
+        exec(src1, ns1)
+        try:
+            for args in arglists:
+                ns1["probe1"](*args)
+            kept.append(m)
+        except Exception:  # noqa: BLE001
+            res.count("members_rejected_by_the_interpreter")
+    members = kept
+    if not members:
+        return
     f, src = compile_members(members, argnames, extra_globals)
     failing = {}
     try:
@@ -297,6 +314,8 @@ def run_shard(shard, tier):
             # the dimension after the first call decides which second calls exist
             d1 = {"to_Vector2D()": 2, "to_Vector3D()": 3, "to_Vector4D()": 4, "to_beta3()": 3}.get(o1, dim)
             for o2 in CHAIN_OPS[d1]:
+                if o1 == "to_Vector4D()" and o2 == "to_beta3()":
+                    continue  # t = 0 after the embedding: the interpreter raises ZeroDivisionError
                 members.append(f"v.{o1}.{o2}")
         members = [m + ("" if m.endswith("unit()") and False else "") for m in members]
         args = [(v, SCAL["a"], SCAL["k"]) for v in vectors_for(dim, system, flavor, tier, n=2)]
@@ -372,6 +391,13 @@ def finalize(total, tier, complete):
     total.counters["members_compiled_ok"] = len(ok_keys)
     for u in unsupported:
         total.add_to("unsupported_in_numba", u)
+    # vacuity guard: every enumerated (family, member, dimension) must have been compared for at least one signature,
+    # or be listed as unsupported / as a missing signature
+    enumerated = {tuple(x.split("|")[:3]) for x in total.sets.pop("members_enumerated", set())}
+    never = sorted(k for k in enumerated if k not in ok_keys and f"{k[0]}:{k[1]}:{k[2]}" not in unsupported)
+    total.counters["members_never_compared"] = len(never)
+    if never and complete:
+        raise RuntimeError(f"vacuous: members enumerated but never compared with the interpreter: {never[:20]}")
 
 
 def replay(case):
